@@ -244,11 +244,23 @@ def c08_run(pid, tier, seed):
             algo.IterCases("iter-u3", False, 3, maxins=6, families=fam),
             algo.IterCases("iter-u4", False, 4, maxins=4 if q else 5, families=fam)]
     ah = vf.build_ah("o1")
-    ares, violations = props_algo.run_all(pid, sets, [], seed, ah, validate=False)
+    d = vf.fresh_dir(os.path.join(vf.RUN, pid, "files"))
+    scale = os.path.join(d, "scale.ndjson")
+    with open(scale, "w") as f:
+        for shape in ("star", "instar", "revstar", "path", "gaps"):
+            f.write(json.dumps({"k": "iter_scale", "shape": shape, "n": 300000 if q else 1200000}) + "\n")
+    ares, violations = props_algo.run_all(pid, sets, [("iter-scale", scale, {"families": props_algo.NOLABEL})], seed, ah,
+                                          validate=False)
     S = props_machine.S
-    scns = [S("dn3", "dn", 3, reps=2), S("un3", "un", 3, reps=2), S("dl2", "dl", 2, labels=(0, 1), reps=1),
-            S("ul2", "ul", 2, labels=(0, 1), reps=1), S("dm2", "dm", 2, reps=2), S("um2", "um", 2, reps=2),
-            S("dw2", "dw", 2, reps=2), S("uw2", "uw", 2, reps=2)]
+    # recorded histories: ONE object goes through a whole call sequence, and the projection also
+    # traverses a view obtained from edges() when the object was created
+    T = props_machine.T
+    tr = (lambda: T(3, 100, 6)) if q else (lambda: T(30, 200, 8, dense=(24,)))
+    scns = [S("dn3", "dn", 3, reps=2, trace=tr()), S("un3", "un", 3, reps=2, trace=tr()),
+            S("dl2", "dl", 2, labels=(0, 1), reps=1, trace=tr()),
+            S("ul2", "ul", 2, labels=(0, 1), reps=1, trace=tr()), S("dm2", "dm", 2, reps=2, trace=tr()),
+            S("um2", "um", 2, reps=2, trace=tr()),
+            S("dw2", "dw", 2, reps=2, trace=tr()), S("uw2", "uw", 2, reps=2, trace=tr())]
     if not q:
         scns += [S("un4", "un", 4, reps=3), S("um3", "um", 3, mults=(0, 1, 2), maxmult=2, reps=2),
                  S("uw3", "uw", 3, reps=2)]
@@ -552,7 +564,18 @@ def c18_run(pid, tier, seed):
             json.dump(plan, f)
         env = dict(os.environ)
         env["TSAN_OPTIONS"] = "halt_on_error=0 exitcode=66 report_signal_unsafe=0"
-        r = subprocess.run([exe, planf], stdout=subprocess.PIPE, stderr=subprocess.PIPE, timeout=3000, env=env)
+        try:
+            r = subprocess.run([exe, planf], stdout=subprocess.PIPE, stderr=subprocess.PIPE, timeout=900 if q else 2400, env=env)
+        except subprocess.TimeoutExpired as te:
+            # readers that never finish (the unchanged tree needs seconds): e.g. a container corrupted by a race
+            path = os.path.join(vf.REPLAYS, "%s-conc-%s-hang.txt" % (pid, tag))
+            with open(path, "w") as f:
+                f.write("plan: %s\n\n%s" % (json.dumps(plan), (te.stderr or b"").decode(errors="replace")[-20000:]))
+            runs.append({"build": build, "threads": threads, "iterations": iters, "summary": None, "rc": "timeout",
+                         "tsan_reports": 0, "logs": logs, "large_first_op": large})
+            violations.append({"replay": path, "what": "concurrent readers (%s build%s) did not finish within the time limit" %
+                               (build, ", large graph, all threads starting in " + large if large else "")})
+            return
         out, err = r.stdout.decode(errors="replace"), r.stderr.decode(errors="replace")
         summary = None
         for ln in out.splitlines():
